@@ -70,6 +70,8 @@ def run_case(ctx):
     sig = {"property": ID, "entry": "cli" if t.opts["cli"] else "api"}
     root = os.path.join(ctx.scratch, "run")
     if negative:
+        t.limit = None          # (a level limit on the readers could hide the difference)
+        t.opts["limit"] = None
         m2, kind = mutate_mesh(src, t.m1)
         if m2 is None:
             negative = False
@@ -121,6 +123,9 @@ def run_case(ctx):
     mm = {}
     i1 = [t.m1.fields.index(f) for f in f1]
     i2 = [t.m2.fields.index(f) for f in f2]
+    if getattr(t, "limit", None) is not None and expect.nlev != t.limit + 1:
+        ctx.case_key = common.key_of(["limit-mismatch", t.describe()])
+        return
     for lv in range(expect.nlev):
         a1, b1 = t.m1.minmax_rows(lv)
         a2, b2 = t.m2.minmax_rows(lv)
